@@ -14,7 +14,7 @@
 (*     just below 2^32 matter for the rules, so `lastPN` is the class                        *)
 (*        NONE | 0 (even, small) | 1 (odd, small) | 2 (= 2^32-2) | 3 (= 2^32-1)              *)
 (*     and the driver tracks the concrete 32-bit number.                                     *)
-EXTENDS Integers, Sequences, FiniteSets, TLC
+EXTENDS ValidatorOps, TLC
 
 CONSTANTS S,        \* slices per picture in the tiny format (slices_x = S, slices_y = 1)
           MaxLen,   \* bound on the number of data units in a history
@@ -22,7 +22,6 @@ CONSTANTS S,        \* slices per picture in the tiny format (slices_x = S, slic
                     \*   [prof : {"LD","HQ"}, ver : 1..3, pat : {"any","nomix","altld","althq"}, fields : BOOLEAN]
 
 NONE == -1
-DEAD == -9
 Profs == {"LD", "HQ"}
 PNFirst == {"a0", "a1", "am2", "am1"}            \* absolute numbers 0, 1, 2^32-2, 2^32-1
 PNRel   == {"next", "same", "skip"}              \* previous + 1 (mod 2^32), previous, previous + 2
@@ -50,31 +49,9 @@ Sym(u) == CASE u.k = "SH" -> "sh" [] u.k = "EOS" -> "eos" [] u.k = "PAD" -> "pad
             [] u.k \in {"F0", "FN"} -> (IF u.prof = "LD" THEN "ldf" ELSE "hqf")
             [] OTHER -> "none"
 
-\* --- intended languages of the level data-unit-ordering patterns, as DFAs ---------------
-\*  any   : .*                                                               (level 0)
-\*  nomix : sh ( (sh|aux|pad|ldp|hqp)* | (sh|aux|pad|ldf|hqf)* ) eos         (levels 1-7)
-\*  altld : (sh ldp)* eos   (levels 64, 65)        althq : (sh hqp)* eos     (level 66)
-LvlStep(pat, q, a) ==
-  CASE pat = "any" -> q
-    [] pat = "nomix" ->
-         IF q = 0 THEN (IF a = "sh" THEN 1 ELSE DEAD)
-         ELSE IF q = 9 \/ q = DEAD THEN DEAD
-         ELSE IF a = "eos" THEN 9
-         ELSE IF a \in {"sh", "aux", "pad"} THEN q
-         ELSE IF a \in {"ldp", "hqp"} THEN (IF q \in {1, 2} THEN 2 ELSE DEAD)
-         ELSE IF a \in {"ldf", "hqf"} THEN (IF q \in {1, 3} THEN 3 ELSE DEAD)
-         ELSE DEAD
-    [] pat \in {"altld", "althq"} ->
-         LET p == IF pat = "altld" THEN "ldp" ELSE "hqp" IN
-         IF q = 0 THEN (IF a = "sh" THEN 1 ELSE IF a = "eos" THEN 9 ELSE DEAD)
-         ELSE IF q = 1 THEN (IF a = p THEN 0 ELSE DEAD)
-         ELSE DEAD
-LvlAccepting(pat, q) == pat = "any" \/ q = 9
-
 IsPicLike(u) == u.k \in {"PIC", "F0", "FN"}
 VerNeed(u) == IF u.k \in {"F0", "FN"} THEN 3 ELSE 1          \* (11.2.2) fragments need major_version 3
 BaseVer(c) == IF c.prof = "HQ" THEN 2 ELSE 1                  \* (11.2.2) the HQ profile needs 2
-Max(a, b) == IF a > b THEN a ELSE b
 
 (* picture-number class after choice p from class x *)
 PNNext(x) == CASE x = 0 -> 1 [] x = 1 -> 0 [] x = 2 -> 3 [] x = 3 -> 0
@@ -142,7 +119,6 @@ Completable == {"R0_parse_info_prefix", "R0_parse_code",
                 "R6_even_first_field", "R7_number_changed", "R7_contiguous", "R7_incomplete_at_end",
                 "R6_whole_frames", "R9_version_minimal"}
 CleanOffsets(u) == u.ppo = "ok" /\ u.npo = (IF u.k = "EOS" THEN "zero" ELSE "ok")
-Min(a, b) == IF a < b THEN a ELSE b
 
 Feed(u) ==
   /\ verdict = "run" /\ Len(hist) < MaxLen /\ Sensible(u)
